@@ -19,5 +19,7 @@ func init() {
 		rules.DiffMergeKey(p, r, "C04-d")
 		rules.SymmetricEquality(p, r, "C04-e")
 		rules.PairRoleConsistency(p, r, "C04-f")
+		rules.DiffWorkloadKeyAgreement(p, r, "C04-g")
+		rules.AllowAllResetsMap(p, r, "C04-e-canon")
 	})
 }
